@@ -1,6 +1,127 @@
-//! C06 — implementation side of the correspondence (stub).
+//! C06 — an actor-model transition is exactly one atomic handler step of one actor.
+//! Implementation side: random `TableActor` systems are walked through the public `Model` trait
+//! (`init_states`, `actions`, `next_state`); the whole walk (every enabled action set, `Some`/`None`, every
+//! successor state in full) is compared with the Lean model's walk (`graph`), and the declarative step
+//! relation is evaluated on the implementation's walk together with the handler-invocation log (`o-graph`).
 use srh::out::*;
+use srh::rng::Rng;
+use srh::table_actor::*;
+use stateright::actor::{ActorModelAction, ActorModelState};
+use stateright::Model;
+use std::panic::{catch_unwind, AssertUnwindSafe};
+
+type Act = ActorModelAction<TMsg, TTimer, TRandom>;
+
+fn sys_stats(out: &mut Out, spec: &SysSpec) {
+    out.stat(&format!("net-{}", spec.kind.name()));
+    out.stat(if spec.lossy { "lossy-yes" } else { "lossy-no" });
+    out.stat(&format!("max-crashes-{}", spec.max_crashes));
+    out.stat(&format!("actors-{}", spec.tables.len()));
+    out.stat(&format!("history-in-mode-{}", spec.hist.in_mode));
+    out.stat(&format!("history-out-mode-{}", spec.hist.out_mode));
+}
+
+pub fn run_system(out: &mut Out, r: &mut Rng, spec: &SysSpec, bound: usize, wild: usize, sample: bool) {
+    let log = new_log();
+    let model = spec.model(spec.table_actors::<TMsg>(Some(&log)));
+    let sx = spec.to_sx(&[]);
+    let g = explore(&model, bound, &tstate_sx, Some(&log));
+    out.m(&format!("graph {} {}", sx, bound), &g.to_sx());
+    out.o(&format!("o-graph {} {} ({})", sx, g.to_sx_with_log(),
+        g.init_log.iter().map(|i| i.to_sx()).collect::<Vec<_>>().join(" ")));
+    sys_stats(out, spec);
+    out.stat_n("states-expanded", g.records.len() as u64);
+    out.stat_n("states-discovered", g.states.len() as u64);
+    out.stat_n("transitions", g.transitions() as u64);
+    out.stat(if g.closed() { "graph-closed" } else { "graph-cut-by-bound" });
+    if g.transitions() > 0 { out.distinct(&sx); }
+    if sample { out.sample(&format!("system {} -> {} states discovered, {} transitions", sx, g.states.len(), g.transitions())); }
+
+    // per-transition statistics: which handler results and command kinds were exercised on the walk
+    for (i, rec) in g.records.iter().enumerate() {
+        for t in rec {
+            let kind = ["deliver", "drop", "timeout", "crash", "select-random"][t.action_key[0] as usize];
+            match t.res {
+                Res::Ignored => out.stat(&format!("{}-ignored", kind)),
+                Res::Panic => out.stat(&format!("{}-panic", kind)),
+                Res::To(j) => { out.stat(&format!("{}-step", kind)); if j == i { out.stat("self-loop"); } }
+            }
+            // `next_steps` default implementation must agree with actions + next_state (spot check below)
+            if let Some(inv) = t.log.first() {
+                let tab = &spec.tables[inv.id];
+                let row = match &inv.ev {
+                    Ev::Msg { state, src, msg } => tab.msg.get(&(*state, *src, *msg as u8)),
+                    Ev::Timeout { state, timer } => tab.timeout.get(&(*state, *timer)),
+                    Ev::Random { state, random } => tab.random.get(&(*state, *random)),
+                    Ev::Start => None,
+                };
+                match row {
+                    None => out.stat("handler-missing-row"),
+                    Some(row) => {
+                        out.stat(if row.ns.is_some() { "handler-owned" } else { "handler-borrowed" });
+                        out.stat(&format!("handler-cmds-{}", row.cmds.len()));
+                        for c in &row.cmds { out.stat(&format!("cmd-{}", c.kind())); }
+                        if row.ns.is_none() && row.cmds.is_empty() { out.stat("handler-row-noop"); }
+                    }
+                }
+            }
+        }
+    }
+    // next_steps (the trait's derived method) on the first states: same successors as actions+next_state
+    for i in 0..g.records.len().min(3) {
+        let steps = model.next_steps(&g.raw[i]);
+        let mut a: Vec<(Vec<u64>, String)> = steps.iter().map(|(a, s)| (action_key(a), state_sx(s, &tstate_sx))).collect();
+        a.sort();
+        let mut b: Vec<(Vec<u64>, String)> = g.records[i].iter()
+            .filter_map(|t| if let Res::To(j) = t.res { Some((t.action_key.clone(), g.states[j].clone())) } else { None }).collect();
+        b.sort();
+        if a != b { out.v("next-steps", &format!("system {} state {}: next_steps disagrees with actions+next_state", sx, g.states[i])); }
+        out.stat("next-steps-checked");
+    }
+    // wild actions: `next_state` on actions that need not be enabled (error branches of the transcription)
+    for _ in 0..wild {
+        if g.records.is_empty() { break; }
+        let i = r.below(g.records.len());
+        let n = spec.tables.len() as u64;
+        let k: Vec<u64> = match r.below(5) {
+            0 => vec![0, r.below(n as usize + 1) as u64, r.below(n as usize + 2) as u64, r.below(3) as u64],
+            1 => vec![1, r.below(n as usize + 1) as u64, r.below(n as usize + 2) as u64, r.below(3) as u64],
+            2 => vec![2, r.below(n as usize + 1) as u64, r.below(3) as u64],
+            3 => vec![3, r.below(n as usize + 1) as u64],
+            _ => vec![4, r.below(n as usize + 1) as u64, r.below(2) as u64, r.below(3) as u64],
+        };
+        let a: Act = mk_action(&k);
+        let asx = action_sx(&a);
+        let st: &ActorModelState<TableActor<TMsg>, Hist> = &g.raw[i];
+        let res = catch_unwind(AssertUnwindSafe(|| model.next_state(st, a)));
+        let exp = match res {
+            Err(_) => { out.stat("wild-panic"); "panic".to_string() }
+            Ok(None) => { out.stat("wild-none"); "none".to_string() }
+            Ok(Some(s2)) => { out.stat("wild-some"); format!("(some {})", state_sx(&s2, &tstate_sx)) }
+        };
+        out.m(&format!("step {} {} {}", sx, g.states[i], asx), &exp);
+    }
+}
+
 fn main() {
-    let out = Out::new();
+    quiet_panics();
+    let mut out = Out::new();
+    let mut r = Rng::new(seed());
+    let th = thorough();
+    let n_sys = arg_u64("--systems", if th { 5000 } else { 450 }) as usize;
+    let bound = arg_u64("--bound", if th { 250 } else { 120 }) as usize;
+    let p = GenParams::default();
+    for i in 0..n_sys {
+        let mut rr = r.fork();
+        // a third of the systems are small (1-2 actors, few rows) so that many graphs close under the bound
+        let mut q = p.clone();
+        match i % 3 {
+            0 => { q.actors = (1, 2); q.density = 30; q.max_cmds = 2; }
+            1 => { q.actors = (2, 3); }
+            _ => {}
+        }
+        let spec = gen_sys(&mut rr, &q);
+        run_system(&mut out, &mut rr, &spec, bound, 3, i < 3);
+    }
     out.finish();
 }
